@@ -261,6 +261,29 @@ def r02g(ctx):
             ctx.inconclusive("R02g", f.file, "LeafNode.__eq__", r, "kind agreement", f"`{norm(r, 60)}` is not a value comparison of the wrapped objects")
 
 
+def r02h(ctx):
+    m = ctx.model
+    ctx.rule("R02h", "every part of a parsed element reaches the tree: the ElementTree data model splits character data into "
+                     "`.text` (before the first child) and `.tail` (after an element's end tag); a loader that copies tag, attrib, "
+                     "text and children but never reads `.tail` drops mixed-content text, so documents that differ only there "
+                     "compare as equal (cost 0, exit 0)")
+    f = m.functions.get("graphtage.xml.build_tree")
+    if f is None:
+        ctx.inconclusive("R02h", "graphtage/xml.py", "build_tree", None, "xml loader", "graphtage.xml.build_tree not found")
+        return
+    attrs = {a.attr for a in walk_no_nested(f.node) if isinstance(a, ast.Attribute) and isinstance(a.value, ast.Name)}
+    parts = {"tag", "attrib", "text"}
+    ctx.floor("R02h", len(parts & attrs), 3, "element parts read by xml.build_tree")
+    if "tail" in attrs:
+        ctx.proved("R02h", f.file, "build_tree", f.node, "element tail text", "the loader reads .tail")
+    else:
+        site = next((a for a in walk_no_nested(f.node) if isinstance(a, ast.Attribute) and a.attr == "text"), f.node)
+        ctx.violation("R02h", f.file, "build_tree", site, "element tail text",
+                      "xml.build_tree reads .tag, .attrib and .text of each element but never .tail: `<a><b/>tail</a>` and "
+                      "`<a><b/>other</a>` build the same tree, the comparison costs 0 and the command exits 0 although the "
+                      "documents differ")
+
+
 def r02d(ctx):
     m = ctx.model
     ctx.rule("R02d", "main returns status 1 iff had_edits; had_edits starts False and each output mode sets it from "
@@ -435,6 +458,7 @@ def run(ctx):
     r02e(ctx)
     r02f(ctx)
     r02g(ctx)
+    r02h(ctx)
     from . import c14
     from .. import cli
     f, specs, groups = cli.parse_cli(m)
